@@ -234,10 +234,10 @@ Proof.
   intros x i0 m k e dof dur s Hx Hdu Hi Hr. start Hx Hi. unfold exec_store_sector.
   apply safe_bind. apply safe_lift. rewrite pd_sector_spec by assumption.
   destruct (in_bounds _ _ _); [|apply iE_self; assumption].
+  do_guard ltac:(apply iE_self; assumption).
+  do_guard ltac:(apply iE_self; assumption).
   apply safe_bind. eapply safe_pay; [eassumption | apply store_sector_cost_fits; assumption | left; reflexivity | apply iE_self; assumption |].
   intros s1 Hi1 Hr1 Ht1 Hw1.
-  do_guard ltac:(apply iE_after_pay; assumption).
-  do_guard ltac:(apply iE_after_pay; assumption).
   apply safe_bind. apply safe_write; [intros _; apply iE_after_pay; assumption|intros _].
   apply safe_bind. apply safe_add_temp. apply safe_ret. split.
   - apply inv_with_temp, inv_with_write. assumption.
